@@ -699,21 +699,41 @@ fn gen_c17(ctx: &mut Ctx) {
         for (ri, rq) in requests.iter().enumerate() {
             for (ai, ans) in answers.iter().enumerate() {
                 // single line, and the same line after a blank line and before another request (3 steps)
-                for shape in 0..2 {
-                    let (tape, script): (Vec<u8>, Vec<String>) = if shape == 0 {
-                        (enc_msg(rq), vec![ans.clone()])
-                    } else {
-                        ([b"\r\n".to_vec(), enc_msg(rq), enc_msg(requests[(ri + 5) % requests.len()])].concat(), vec![answers[(ai + 1) % answers.len()].clone(), ans.clone(), answers[(ai + 3) % answers.len()].clone()])
+                for shape in 0..4 {
+                    let rq2 = requests[(ri + 5) % requests.len()];
+                    let (a1, a3) = (answers[(ai + 1) % answers.len()].clone(), answers[(ai + 3) % answers.len()].clone());
+                    let (tape, script): (Vec<u8>, Vec<String>) = match shape {
+                        0 => (enc_msg(rq), vec![ans.clone()]),
+                        1 => ([b"\r\n".to_vec(), enc_msg(rq), enc_msg(rq2)].concat(), vec![a1.clone(), ans.clone(), a3.clone()]),
+                        // the request, then a frame identical to the answer just written back (an echo on a two-wire line,
+                        // or simply a peer saying the same thing), then another request: three frames, three forwards
+                        2 => {
+                            if ans == "N" {
+                                continue;
+                            }
+                            ([enc_msg(rq), enc_msg(ans), enc_msg(rq2)].concat(), vec![ans.clone(), "N".to_string(), a3.clone()])
+                        }
+                        // the last frame before the end of the stream lacks its CR LF (the terminator is optional)
+                        _ => {
+                            let mut t = enc_msg(rq);
+                            t.truncate(t.len() - 2);
+                            (t, vec![ans.clone()])
+                        }
                     };
                     k += 1;
                     let ws: Vec<String> = if k % 5 == 0 { vec!["A0".into(), "I".into(), "A2".into()] } else { vec![] };
                     let line = format!("ODS {} {} / {}", hex_of_bytes(&tape), script.join(" "), ws.join(" ")).trim_end().to_string();
                     let res = ctx.case(line.clone(), true, "bridge-over-scripted-bus");
-                    if shape == 0 {
-                        let want_written = if ans == "N" { "-".to_string() } else { hex_of_bytes(&enc_msg(ans)) };
-                        let want = format!("OK fwd={} | {} | -", rq, want_written);
-                        ctx.monitor(res == want, "C17-bridge", &line, &format!("wanted [{}] got [{}]", want, res));
-                    }
+                    let written = |xs: &[&String]| -> String {
+                        let v: Vec<u8> = xs.iter().filter(|x| x.as_str() != "N").flat_map(|x| enc_msg(x)).collect();
+                        if v.is_empty() { "-".to_string() } else { hex_of_bytes(&v) }
+                    };
+                    let want = match shape {
+                        0 | 3 => format!("OK fwd={} | {} | -", rq, written(&[ans])),
+                        1 => format!("COMM fwd=- ; OK fwd={} ; OK fwd={} | {} | -", rq, rq2, written(&[ans, &a3])),
+                        _ => format!("OK fwd={} ; OK fwd={} ; OK fwd={} | {} | -", rq, ans, rq2, written(&[ans, &a3])),
+                    };
+                    ctx.monitor(res == want, "C17-bridge", &line, &format!("wanted [{}] got [{}]", want, res));
                 }
             }
         }
